@@ -234,6 +234,8 @@ pub fn default_choice(enabled: &[Enabled], prev: Option<usize>) -> usize {
 }
 
 pub struct ExploreStats {
+    /// replays that did not see what their parent execution saw (re-run; never a verdict)
+    pub divergences: Vec<String>,
     pub schedules: u64,
     pub steps: u64,
     pub max_points: usize,
@@ -250,19 +252,49 @@ pub fn explore<O>(
     visit: &mut dyn FnMut(&Execution<O>, &[usize]) -> bool,
     mine: &dyn Fn(u64) -> bool,
 ) -> Result<ExploreStats, String> {
-    let mut stats = ExploreStats { schedules: 0, steps: 0, max_points: 0, capped: false };
+    let mut stats = ExploreStats { divergences: vec![], schedules: 0, steps: 0, max_points: 0, capped: false };
     // work list of prefixes (depth-first)
-    let mut stack: Vec<(Vec<usize>, usize)> = vec![(vec![], 0)];
+    // (prefix, preemptions used, what the parent execution saw at each point of the prefix)
+    type Seen = Vec<Vec<(usize, &'static str)>>;
+    let mut stack: Vec<(Vec<usize>, usize, std::rc::Rc<Seen>)> = vec![(vec![], 0, std::rc::Rc::new(vec![]))];
     let mut top_level_units: u64 = 0;
-    while let Some((prefix, used)) = stack.pop() {
+    while let Some((prefix, used, parent_seen)) = stack.pop() {
         if stats.schedules >= max_schedules {
             stats.capped = true;
             break;
         }
-        let x = run(&prefix)?;
-        if let Some(d) = &x.diverged {
-            return Err(format!("replay divergence under prefix {prefix:?}: {d}"));
-        }
+        // determinism obligation: along the replayed prefix an execution must see exactly what its
+        // parent saw (same roles parked at the same sites), up to the deviating choice.  A divergence
+        // is never a verdict; the schedule is run again (up to three times, counted) and a schedule
+        // that keeps diverging is a machinery error.
+        let mut attempt = 0;
+        let (x, seen) = loop {
+            attempt += 1;
+            let x = run(&prefix)?;
+            let seen: Seen = x.points.iter().map(|p| p.enabled.iter().map(|e| (e.role, e.site)).collect()).collect();
+            let upto = prefix.len().min(parent_seen.len()).min(seen.len());
+            let mut problem = None;
+            for j in 0..upto {
+                if seen[j] != parent_seen[j] {
+                    let lo = j.saturating_sub(3);
+                    problem = Some(format!("at point {j} the parent execution saw {:?}, this one {:?}; grants before: {:?}; parent's points {lo}..{j}: {:?}; this execution's: {:?}", parent_seen[j], seen[j], &prefix[lo..j], &parent_seen[lo..j], &seen[lo..j]));
+                    break;
+                }
+            }
+            if problem.is_none() {
+                problem = x.diverged.clone();
+            }
+            match problem {
+                None => break (x, seen),
+                Some(d) => {
+                    stats.divergences.push(format!("attempt {attempt} under prefix of {} grants: {d}", prefix.len()));
+                    if attempt >= 3 {
+                        return Err(format!("replay divergence (3 attempts) under prefix {prefix:?}: {d}"));
+                    }
+                }
+            }
+        };
+        let seen = std::rc::Rc::new(seen);
         stats.schedules += 1;
         stats.steps += x.points.len() as u64;
         stats.max_points = stats.max_points.max(x.points.len());
@@ -293,7 +325,7 @@ pub fn explore<O>(
                 }
                 let mut np: Vec<usize> = x.points[..i].iter().map(|q| q.chosen).collect();
                 np.push(e.role);
-                children.push((np, c));
+                children.push((np, c, std::rc::Rc::clone(&seen)));
             }
             // the default continuation itself may be a preemption-free switch; its cost is 0 by
             // construction (default never preempts)
